@@ -353,6 +353,11 @@ def check(s):
                 okj = nzq.canon(r_[1][2]) in [nzq.canon(s.ref(bq, e_, Lb)) for e_ in ("L", "L.sum()", "L.sum().squeeze()", "L.squeeze()", "L.squeeze().sum()", "L.sum(axis=-1)")]
                 s.ob("C07.8", f"{ci_.name}.action_and_log_prob", okj, "the reported log-probability is that element itself, at most summed over the action components (joint density) and squeezed",
                      locq, key="joint-logprob", detail=show(r_[1][2], maxlen=160), necessary_for="minus alpha * log pi of that action (the joint density of the sampled action vector)")
+    # ---------------------------------------------------------------- C07.9 the flags a Gymnasium-adapted environment reports
+    # timeout = truncated & ~terminated is computed from env.terminal / env.truncate; for an adapted Gymnasium environment these are the
+    # flags its step() returned, kept apart (a `terminal` that also absorbs `truncated` makes every time-limit ending a termination)
+    from .C13 import check_adapters
+    check_adapters(s, "C07.9")
     # ---------------------------------------------------------------- C07.7 the buffer keeps the tuple (r, done, timeout, s') together
     # The target combines batch.rewards, batch.dones, batch.timeouts and batch.next_observations row by row: ReplayBuffer.add must
     # write all of them at one ring index (a flag written at another slot pairs a transition with a stale done/timeout flag).
